@@ -16,7 +16,8 @@ Definition c02_spec_recovery (b : cfg) (pre : st) (new : sstate) : bool :=
   let k := c_kind b in
   is_ok k new && negb (is_ok k (s_raw pre)) && stype_eqb (s_type pre) Hard.
 
-(* finding "volatile-soft-recovery": a volatile object goes OK/Up from a SOFT (or never-checked) non-OK state *)
+(* shape of the former finding "volatile-soft-recovery" (fixed by /repo b9a7cb5): a volatile object goes OK/Up from a SOFT
+   (or never-checked) non-OK state; no longer sent, kept to describe the old behaviour and as a diagnostic in the oracle *)
 Definition c02_vol_soft (b : cfg) (pre : st) (new : sstate) : bool :=
   let k := c_kind b in
   c_volatile b && is_ok k new && negb (is_ok k (s_raw pre)) && stype_eqb (s_type pre) Soft.
@@ -25,18 +26,43 @@ Lemma c02_send_char b pre r :
   let s' := fst (step_accept b pre r) in
   let i := snd (step_accept b pre r) in
   c02_send b i s' (r_state r) =
-    ((c02_spec_problem b pre (r_state r) (s_type s') || c02_spec_recovery b pre (r_state r)
-      || c02_vol_soft b pre (r_state r))
+    ((c02_spec_problem b pre (r_state r) (s_type s') || c02_spec_recovery b pre (r_state r))
      && negb (is_ok (c_kind b) (s_raw pre) && stype_eqb (s_type pre) Soft))
   /\ i_recovery i = (is_ok (c_kind b) (r_state r) && negb (is_ok (c_kind b) (s_raw pre)))
   /\ (s_type s' = Soft -> is_ok (c_kind b) (r_state r) = false).
 Proof.
   destruct b as [k mx vol], pre as [raw ty at_ lh hs ss hc cs], r as [new rs re].
-  unfold c02_send, c02_spec_problem, c02_spec_recovery, c02_vol_soft, step_accept.
+  unfold c02_send, c02_spec_problem, c02_spec_recovery, step_accept.
   cbn [c_kind c_max c_volatile s_raw s_type s_attempt r_state].
   destruct k, raw, ty, vol, new; cbn;
     repeat match goal with |- context [?a <=? ?b] => destruct (a <=? b) end; cbn;
     repeat split; try reflexivity; intros; discriminate.
+Qed.
+
+(* the send decision BEFORE /repo b9a7cb5 (volatile branch without the soft -> OK exclusion) *)
+Definition c02_send_old (b : cfg) (i : info) (s' : st) (new_state : sstate) : bool :=
+  let k := c_kind b in
+  let ty := s_type s' in
+  let vol := c_volatile b in
+  let old_state := i_old_raw i in
+  let old_type := i_old_type i in
+  let send0 :=
+    if i_hard_change i && negb (stype_eqb old_type Soft && is_ok k new_state) then true
+    else if vol && stype_eqb ty Hard then true else false in
+  let send1 := if is_ok k old_state && stype_eqb old_type Soft then false else send0 in
+  if vol && is_ok k old_state && is_ok k new_state then false else send1.
+
+(* what the fix changed: exactly the volatile soft -> OK/Up case *)
+Lemma c02_send_old_char b pre r :
+  let s' := fst (step_accept b pre r) in
+  let i := snd (step_accept b pre r) in
+  c02_send_old b i s' (r_state r) = (c02_send b i s' (r_state r) || c02_vol_soft b pre (r_state r)).
+Proof.
+  destruct b as [k mx vol], pre as [raw ty at_ lh hs ss hc cs], r as [new rs re].
+  unfold c02_send, c02_send_old, c02_vol_soft, step_accept.
+  cbn [c_kind c_max c_volatile s_raw s_type s_attempt r_state].
+  destruct k, raw, ty, vol, new; cbn;
+    repeat match goal with |- context [?a <=? ?b] => destruct (a <=? b) end; cbn; reflexivity.
 Qed.
 
 Definition c02_shape (b : cfg) (s : st) : Prop := is_ok (c_kind b) (s_raw s) = true -> s_type s = Hard.
@@ -53,7 +79,7 @@ Theorem request_rule c now r f :
   (s_type (f_st f') = Soft \/ is_flapping c (f_flap f') = true ->
      c02_state_outs o = [] /\ f_sp_problem f' = f_sp_problem f /\ f_sp_recovery f' = f_sp_recovery f) /\
   (* the rule, when nothing withholds the request *)
-  (c02_shape (fc_base c) (f_st f) -> c02_vol_soft (fc_base c) (f_st f) (r_state r) = false ->
+  (c02_shape (fc_base c) (f_st f) ->
    f_paused f = false -> is_flapping c (f_flap f') = false ->
    c02_reason now f' = false -> c02_pending f = false ->
      c02_state_outs o = c02_expected (fc_base c) (f_st f) (r_state r) (s_type (f_st f')) /\
@@ -71,16 +97,14 @@ Proof.
       rewrite Hst in Hs. specialize (Hsoft Hs).
       assert (c02_spec_recovery (fc_base c) (f_st f) (r_state r) = false) as E2
         by (unfold c02_spec_recovery; rewrite Hsoft; reflexivity).
-      assert (c02_vol_soft (fc_base c) (f_st f) (r_state r) = false) as E3
-        by (unfold c02_vol_soft; rewrite Hsoft, andb_false_r; reflexivity).
-      rewrite E1, E2, E3 in *. cbn [orb andb] in *.
+      rewrite E1, E2 in *. cbn [orb andb] in *.
       rewrite O1, O2, O3, !orb_false_r. repeat split.
     + rewrite Hf in *. cbn [negb] in *. rewrite !andb_false_r in *. cbn [andb] in *.
       rewrite O1, O2, O3, !orb_false_r. repeat split.
-  - intros Hshape Hvs Hpa Hfl Hre Hpe.
+  - intros Hshape Hpa Hfl Hre Hpe.
     assert (negb (is_ok (c_kind (fc_base c)) (s_raw (f_st f)) && stype_eqb (s_type (f_st f)) Soft) = true) as Hg.
     { destruct (is_ok _ _) eqn:E; [|reflexivity]. rewrite (Hshape E). reflexivity. }
-    rewrite Hg, Hvs, Hpa, Hfl, Hre, Hpe in *. cbn [negb andb orb] in *. rewrite !orb_false_r, !andb_true_r in *.
+    rewrite Hg, Hpa, Hfl, Hre, Hpe in *. cbn [negb andb orb] in *. rewrite !andb_true_r in *.
     unfold c02_pending in *. rewrite O2, O3. apply orb_false_iff in Hpe. destruct Hpe as [-> ->].
     rewrite !andb_false_r. split; [|reflexivity].
     rewrite O1. unfold c02_expected.
@@ -129,7 +153,8 @@ Theorem safety_step c now f op :
   (c02_state_outs o <> [] -> f_paused f = false /\ c02_reason now f' = false /\ c02_is_core_op op = true) /\
   (c02_pending f = true -> f_sbs f' = f_sbs f) /\
   (c02_pending f = true -> c02_state_outs o <> [] ->
-     op = OpFire /\ c02_pending f' = false /\ s_raw (f_st f) <> f_sbs f) /\
+     op = OpFire /\ c02_pending f' = false /\
+     release_same_state (c_kind (fc_base c)) (s_raw (f_st f)) (f_sbs f) = false) /\
   (c02_pending f = true -> c02_pending f' = false ->
      op = OpFire /\ f_paused f = false /\ c02_release_cond c now f = true) /\
   (c02_pending f = false -> c02_pending f' = true ->
@@ -176,9 +201,8 @@ Proof.
       split; [intros; assumption|].
       split.
       { intros Hp. rewrite O1. destruct (negb (f_paused f) && c02_pending f && c02_release_cond c now f) eqn:E; [|cbn; congruence].
-        cbn [andb]. destruct (sstate_eqb (s_raw (f_st f)) (f_sbs f)) eqn:E2; [cbn; congruence|]. intros _.
-        split; [reflexivity|]. split; [unfold c02_pending; rewrite O2, O3; reflexivity|].
-        intros Hx. apply sstate_eqb_eq in Hx. congruence. }
+        cbn [andb]. destruct (release_same_state (c_kind (fc_base c)) (s_raw (f_st f)) (f_sbs f)) eqn:E2; [cbn; congruence|]. intros _.
+        split; [reflexivity|]. split; [unfold c02_pending; rewrite O2, O3; reflexivity|reflexivity]. }
       split.
       { intros Hp Hp'. split; [reflexivity|].
         destruct (negb (f_paused f) && c02_pending f && c02_release_cond c now f) eqn:E.
@@ -212,7 +236,7 @@ Theorem release_step c now f :
   let o := snd (do_fire c now f) in
   (c02_release_cond c now f = true ->
      c02_pending f' = false /\
-     c02_state_outs o = (if sstate_eqb (s_raw (f_st f)) (f_sbs f) then [] else [ONotify (c02_fire_type c f)]) /\
+     c02_state_outs o = (if release_same_state (c_kind (fc_base c)) (s_raw (f_st f)) (f_sbs f) then [] else [ONotify (c02_fire_type c f)]) /\
      (forall now', c02_state_outs (snd (do_fire c now' f')) = [])) /\
   (c02_release_cond c now f = false ->
      c02_state_outs o = [] /\ f_sp_problem f' = f_sp_problem f /\ f_sp_recovery f' = f_sp_recovery f /\
@@ -223,33 +247,32 @@ Proof.
   split; intros Hc; rewrite Hc in *; cbn [andb] in *.
   - assert (c02_pending f' = false) as Hp' by (unfold c02_pending; rewrite O2, O3; reflexivity).
     split; [assumption|]. split.
-    + rewrite O1. destruct (sstate_eqb _ _); reflexivity.
+    + rewrite O1. destruct (release_same_state _ _ _); reflexivity.
     + intros now'. apply fire_idle. assumption.
   - repeat split; try assumption. apply Hsame.
 Qed.
 
-(* hosts: state_before_suppression and the current state are compared as RAW service states *)
-Definition c02_faithful (k : kind) (s : sstate) : Prop :=
-  match k with KService => True | KHost => s = SOK \/ s = SCritical end.
+(* since /repo 5e50b7a the comparison is the one of the API-visible state: Up/Down for hosts, the service state for services *)
+Lemma c02_release_same_api k a b : release_same_state k a b = (api_state k a =? api_state k b).
+Proof. destruct k, a, b; reflexivity. Qed.
 
-Lemma c02_faithful_api k a b : c02_faithful k a -> c02_faithful k b ->
-  sstate_eqb a b = (api_state k a =? api_state k b).
-Proof.
-  destruct k; cbn [c02_faithful].
-  - intros [->| ->] [->| ->]; reflexivity.
-  - intros _ _. destruct a, b; reflexivity.
-Qed.
+(* the comparison BEFORE the fix was on raw states; it differs exactly for hosts, on raw states that collapse *)
+Lemma c02_release_old_differs :
+  (forall a b, sstate_eqb a b = release_same_state KService a b) /\
+  (forall a b, sstate_eqb a b = true -> release_same_state KHost a b = true) /\
+  sstate_eqb SWarning SOK = false /\ release_same_state KHost SWarning SOK = true /\
+  sstate_eqb SUnknown SCritical = false /\ release_same_state KHost SUnknown SCritical = true.
+Proof. repeat split; try reflexivity; intros a b; destruct a, b; try reflexivity; discriminate. Qed.
 
 Theorem release_step_api c now f :
   f_paused f = false -> c02_pending f = true -> c02_release_cond c now f = true ->
-  c02_faithful (c_kind (fc_base c)) (s_raw (f_st f)) -> c02_faithful (c_kind (fc_base c)) (f_sbs f) ->
   let k := c_kind (fc_base c) in
   c02_pending (fst (do_fire c now f)) = false /\
   c02_state_outs (snd (do_fire c now f)) =
     (if api_state k (s_raw (f_st f)) =? api_state k (f_sbs f) then [] else [ONotify (c02_fire_type c f)]).
 Proof.
-  intros Hpa Hp Hc F1 F2 k. destruct (release_step c now f Hpa Hp) as [H _]. destruct (H Hc) as (A & B & _).
-  split; [assumption|]. rewrite B, (c02_faithful_api k _ _ F1 F2). reflexivity.
+  intros Hpa Hp Hc k. destruct (release_step c now f Hpa Hp) as [H _]. destruct (H Hc) as (A & B & _).
+  split; [assumption|]. rewrite B, c02_release_same_api. reflexivity.
 Qed.
 
 (* ------------------------------------------------------------------ runs: all interleavings of operations *)
@@ -259,12 +282,6 @@ Definition c02_run (c : fcfg) (f : full) (l : list (Z * op)) : full :=
 
 Lemma c02_run_snoc c f l no : c02_run c f (l ++ [no]) = fst (full_step c (fst no) (c02_run c f l) (snd no)).
 Proof. unfold c02_run. rewrite fold_left_app. reflexivity. Qed.
-
-Definition c02_results_faithful (c : fcfg) (l : list (Z * op)) : Prop :=
-  Forall (fun no => match snd no with OpResult r => c02_faithful (c_kind (fc_base c)) (r_state r) | _ => True end) l.
-
-Lemma c02_faithful_ok k : c02_faithful k SOK.
-Proof. destruct k; cbn; auto. Qed.
 
 Lemma c02_step_st c now f op :
   f_st (fst (full_step c now f op)) = f_st f \/
@@ -293,41 +310,18 @@ Proof.
   - left. destruct (c02_other_ops c now f op Hcore) as [_ Hb]. apply Hb.
 Qed.
 
-Lemma c02_faithful_inv c l :
-  c02_results_faithful c l ->
-  let f := c02_run c init_full l in
-  c02_faithful (c_kind (fc_base c)) (f_sbs f) /\ c02_faithful (c_kind (fc_base c)) (c02_hard_state (f_st f)).
-Proof.
-  induction l as [|no l IH] using rev_ind; intros Hf.
-  - cbn. split; apply c02_faithful_ok.
-  - unfold c02_results_faithful in Hf. apply Forall_app in Hf. destruct Hf as [Hl Hno].
-    specialize (IH Hl). cbv zeta in *. rewrite c02_run_snoc.
-    set (f := c02_run c init_full l) in *. destruct IH as [I1 I2].
-    split.
-    + destruct (c02_step_sbs c (fst no) f (snd no)) as [-> | ->]; assumption.
-    + destruct (c02_step_st c (fst no) f (snd no)) as [-> | (r & Hop & _ & ->)]; [assumption|].
-      inversion Hno as [|? ? Hr _]; subst. rewrite Hop in Hr.
-      unfold c02_hard_state. rewrite step_accept_raw.
-      destruct (stype_eqb _ Hard); [assumption|apply c02_faithful_ok].
-Qed.
-
-(* main release theorem: over ALL interleavings from the never-checked start.  The hypothesis
-   [c02_results_faithful] is the negated signature of finding "host-raw-state-release": services are unrestricted,
-   host results are OK or CRITICAL (then raw state and Up/Down carry the same information). *)
+(* main release theorem: over ALL interleavings from the never-checked start, hosts and services, any raw results *)
 Theorem release_rule c l now :
-  c02_results_faithful c l ->
   let f := c02_run c init_full l in
   let k := c_kind (fc_base c) in
   f_paused f = false -> c02_pending f = true -> c02_release_cond c now f = true ->
   c02_pending (fst (do_fire c now f)) = false /\
   c02_state_outs (snd (do_fire c now f)) =
-    (if api_state k (s_raw (f_st f)) =? api_state k (f_sbs f) then [] else [ONotify (c02_fire_type c f)]).
+    (if api_state k (s_raw (f_st f)) =? api_state k (f_sbs f) then [] else [ONotify (c02_fire_type c f)]) /\
+  (forall now', c02_state_outs (snd (do_fire c now' (fst (do_fire c now f)))) = []).
 Proof.
-  intros Hf f k Hpa Hp Hc. destruct (c02_faithful_inv c l Hf) as [I1 I2]. fold f in I1, I2.
-  apply release_step_api; try assumption.
-  unfold c02_hard_state in I2. unfold c02_release_cond in Hc.
-  destruct (stype_eqb (s_type (f_st f)) Hard); [assumption|].
-  rewrite andb_false_r in Hc. discriminate.
+  intros f k Hpa Hp Hc. destruct (release_step_api c now f Hpa Hp Hc) as [A B].
+  destruct (release_step c now f Hpa Hp) as [H _]. destruct (H Hc) as (_ & _ & C). auto.
 Qed.
 
 (* ------------------------------------------------------------------ the remembered state *)
@@ -399,7 +393,6 @@ Theorem request_rule_run c l now r :
   rejected now (f_st f) r = false ->
   let f' := fst (do_result c now r f) in
   let o := snd (do_result c now r f) in
-  c02_vol_soft (fc_base c) (f_st f) (r_state r) = false ->
   f_paused f = false -> is_flapping c (f_flap f') = false ->
   c02_reason now f' = false -> c02_pending f = false ->
   c02_state_outs o = c02_expected (fc_base c) (f_st f) (r_state r) (s_type (f_st f')) /\ c02_pending f' = false.
